@@ -66,7 +66,7 @@ PROPS = {
                      "proved reference inclW (both directions per pair); a call that does not return within 5 s counts as a "
                      "violation (state spaces are ≤ 2^9); non-trivial = L(A) non-empty",
                 assumptions=PROOF_ASSUME),
-    "C10": dict(level="proof", cli=dict(kinds=[("cliop_c10", 1)], quick=150, thorough=4000), kinds=[("nfah_ops", 1)], n=dict(quick=3000, thorough=300000, search=4000),
+    "C10": dict(level="proof", cli=dict(kinds=[("cliop_c10", 1)], quick=150, thorough=4000), kinds=[("nfah_ops", 4), ("nfas", 1)], n=dict(quick=3600, thorough=200000, search=4000),
                 rule="histories of Union / UnionDisjointStates (repeated with one left operand and right operands sharing "
                      "numbers) / Intersection / Reverse / RemoveUnreachableStates / RemoveUselessStates / GetCandidateTree on a "
                      "pool of NFAs incl. results of earlier steps; every result judged by isUnionW / isIsectW / equivW / inclW / "
@@ -112,7 +112,7 @@ PROPS = {
                      "by operations on other handles, and after destroying every handle both tables are back to their initial "
                      "sizes; ASan reports use-after-free / double free; non-trivial = at least one apply in the history",
                 assumptions=PROOF_ASSUME),
-    "C13": dict(level="proof", kinds=[("parse", 24), ("nfah_ops", 2), ("bddh", 1), ("glue", 1)], n=dict(quick=13500, thorough=200000, search=13000),
+    "C13": dict(level="proof", kinds=[("parse", 24), ("nfah_ops", 2), ("bddh", 1), ("glue", 1), ("nfas", 1)], n=dict(quick=14000, thorough=200000, search=13000),
                 rule="texts: valid files with adversarial names, ranked tree automata, word automata, byte- and token-level "
                      "mutations of them, keyword soups, random bytes (incl. NUL, 0x80, 0xff, VT, FF, CR), shipped small files and "
                      "their mutations; TimbukParser::ParseString is compared with the model parser (accept / throw, the whole "
@@ -240,7 +240,7 @@ def nontrivial(prop, r):
     if prop == "C09":
         return "emptyA=0" in v
     if prop == "C10":
-        return "isectempty=0" in v or "candempty=0" in v
+        return "isectempty=0" in v or "candempty=0" in v or "candexact" in v
     if prop == "C15":
         return "empty=0" in v
     return True
